@@ -49,6 +49,10 @@ MUTATION_DRILLS = [
      "tests_pass": True, "detected": True,
      "fired": "translator reports NotInitialised, C17_ctor_initialises_merged_entries fails; VIOLATION with failing input: tick-not-max:uninit-storage "
               "(case b73: one-entry merge, storage pre-filled with -1) and memcheck:uninitialised-read (Source::Dump, CloseMerge)"},
+    {"id": "M11", "mutation": "tsv.cc TsvReader::operator(): `int num_entries = 0;` -> `int num_entries;` (translator-level run only: "
+                                "VERIF_REPO=<worktree> python3 gen/udb_inits.py)",
+     "tests_pass": None, "detected": True,
+     "fired": "Gen/Inits.v: uninitialised_locals = [(operator(), num_entries)], all_read_members_initialised = false, so C17_members_initialised no longer checks"},
     {"id": "M10", "mutation": "tsv.cc TsvWriter: metadata lines written as `#@key value` (blank instead of TAB)",
      "tests_pass": True, "detected": True, "fired": "VIOLATION with failing input: tick-not-max, key-lost-theirs, magnitude-not-max after sync (restore of such a snapshot fails)"},
 ]
